@@ -3,7 +3,7 @@ against the Lean model (parse, buildTopo, exportChunks + the cursor machine).
 
 Every call is first tried in a forked child, so a crash of the real code is an observation ("crash"), never a dead harness.
 Known findings (known_findings.json, status known) are reported with one KNOWN-FINDING line per class and do not fail
-the check: F34, F35 (round trip under the legacy export flags).  No input class is excluded."""
+the check: F34, F35 (round trip under the legacy export flags), F78 (Group KEEP_NONE, root-attached memory).  No input class is excluded."""
 import os
 from eng_generic import DiffEngine
 from diffrun import compare_streams
@@ -12,6 +12,7 @@ from diffrun import compare_streams
 KNOWN_CLASSES = {}      # no input class is excluded any more (F04, F67, F69 ... are fixed and are ordinary cases)
 KNOWN_TEXT = {
     "F34": "id=F34 hwloc_topology_export_synthetic(NO_EXTENDED_TYPES) writes caches as generic 'Cache:n', which hwloc_type_sscanf does not accept: the exported string cannot be re-imported (EINVAL)",
+    "F78": "id=F78 with the Group type filter set to KEEP_NONE a NUMA node whose locality has no exact object hangs from the root even when the root has a single child of the same cpuset (objects are inserted bottom-up, that child does not exist yet); the export then starts with '[NUMANode...]' and its re-import (same filters) attaches the nodes to that child: export/import/export is not a fixpoint",
     "F35": "id=F35 under V1 / NO_EXTENDED_TYPES / IGNORE_MEMORY a Die or the Group holding NUMA nodes is exported as a plain 'Group:n'; on re-import the core merges it away when it has a single child: export/import/export is not a fixpoint",
 }
 # fix-op oracle: round trip failures that are known findings
@@ -22,6 +23,10 @@ def _fix_known(op, c):
         return "F34"
     if (flags & 13) and ("same=0" in c or "rt=0" in c) and "load2=ok" in c and b"Group:" in bytes.fromhex(c.split()[1]):
         return "F35"
+    # F78: Group KEEP_NONE (caller-set filter), memory exported as attached to the root although a single child covers the root
+    flt = t[2].split("@")[1] if len(t) > 2 and "@" in t[2] else ""
+    if len(flt) > 13 and flt[13] == "1" and "load2=ok" in c and ("same=0" in c or "rt=0" in c) and bytes.fromhex(c.split()[1]).startswith(b"["):
+        return "F78"
     return None
 
 known_hits = {}
